@@ -71,9 +71,9 @@ func c14Alphabet(full bool) []c14Op {
 	type kp struct{ key, pw string }
 	for _, s := range sessions {
 		for _, c := range claimed {
-			kps := []kp{{"", c14DB[strings.ToLower(c)]}, {"", "wrong"}, {"bob", "pw2"}}
+			kps := []kp{{"", c14DB[strings.ToLower(c)]}, {"", "wrong"}, {"bob", "pw2"}, {"alice", "pw1"}}
 			if full {
-				kps = append(kps, kp{"", ""}, kp{"alice", "pw1"})
+				kps = append(kps, kp{"", ""})
 			}
 			for _, k := range kps {
 				for _, ch := range chals {
@@ -94,7 +94,11 @@ func c14Alphabet(full bool) []c14Op {
 }
 
 type c14Sess struct {
-	cur, prev *ntlmc.Challenge
+	// cur / prev: challenges the session still holds (reference state);
+	// lastCur / lastPrev: the most recently issued ones, also after they were
+	// consumed, so that a client can replay a response to a consumed challenge
+	cur, prev         *ntlmc.Challenge
+	lastCur, lastPrev *ntlmc.Challenge
 	fresh     bool // the last operation on this session was the negotiate that issued cur
 	aged      bool // clock advanced past the context lifetime since cur was issued
 }
@@ -140,6 +144,7 @@ func c14Run(hist []c14Op, rep *Report) (viol, detail string, trace []string) {
 			}
 			s := sess[op.Sess]
 			s.prev, s.cur, s.fresh, s.aged = s.cur, ch, true, false
+			s.lastPrev, s.lastCur = s.lastCur, ch
 			trace = append(trace, op.String()+" -> challenge")
 		case "garbage":
 			msg := map[string]string{
@@ -166,11 +171,11 @@ func c14Run(hist []c14Op, rep *Report) (viol, detail string, trace []string) {
 			var ch *ntlmc.Challenge
 			switch op.Chal {
 			case "cur":
-				ch = s.cur
+				ch = s.lastCur
 			case "prev":
-				ch = s.prev
+				ch = s.lastPrev
 			case "other":
-				ch = sess[1-op.Sess].cur
+				ch = sess[1-op.Sess].lastCur
 			case "zeros":
 				ch = &ntlmc.Challenge{ServerChallenge: make([]byte, 8)}
 			}
